@@ -544,7 +544,7 @@ func (rn *runner) runHistory(idx int, sp spec, r *gen.Rand) *History {
 		capImg = 30
 	}
 	if !quick {
-		capImg = 400
+		capImg = 150
 	}
 	wal := map[string][]int{}
 	walEpoch := map[string]int{}
@@ -1171,6 +1171,9 @@ func (rn *runner) runHistory(idx int, sp spec, r *gen.Rand) *History {
 				nsub++
 				if quick && !(isIndex(ev.Path) && r.Chance(1, 20)) && !(!isIndex(ev.Path) && r.Chance(1, 5)) {
 					return
+				}
+				if !quick && !(isIndex(ev.Path) && r.Chance(1, 8)) && !(!isIndex(ev.Path) && r.Chance(1, 2)) {
+					return // thorough: half of the recovery's own mutations, an eighth of the index ones
 				}
 				sd := filepath.Join(base, fmt.Sprintf("sub%d", nimg))
 				nimg++
